@@ -92,6 +92,49 @@ Fixpoint d_for_tasks (tasks : list dtask) (run : dtask -> DM unit) : DM unit :=
                                            (d_for_tasks r run))
   end.
 
+(* for item in items: body item       (`continue` ends the body early: the body's term simply has nothing after it) *)
+Fixpoint d_for_each {X} (items : list X) (body : X -> DM unit) : DM unit :=
+  match items with
+  | [] => dret tt
+  | x :: r => dseq (body x) (d_for_each r body)
+  end.
+
+(* if <cond>: then_ else: else_ *)
+Definition d_ifelse (cond : dst -> bool) (then_ else_ : DM unit) : DM unit :=
+  fun σ => if cond σ then then_ σ else else_ σ.
+
+(* ---- mk_fun / gen_fun: the generated function, line by line ---------------------------------------
+   "def name(x0, x1, ...):" / "  <ref_i> = x_i" / "  <target> = <expr>"   (str(task) of an ExprTask) *)
+Inductive fline :=
+| LAssign (target : path) (param : nat)      (* the i-th parameter is stored at the location *)
+| LTask (t : dtask).                         (* the printed form of a task *)
+
+(* start = set(); for vref in kwargs.values(): vref._get_dependencies(start)
+   MutableRef._get_dependencies(out) adds the reference and its enclosing containers (deps_of) *)
+Definition d_deps_into (acc : list path) (vref : path) : list path := union acc (deps_of vref).
+
+Fixpoint assign_lines (i : nat) (refs : list path) : list fline :=
+  match refs with [] => [] | r :: rest => LAssign r i :: assign_lines (S i) rest end.
+
+(* exec(fdef, gbl, lcl) and a call of lcl[name] with the values: the body runs top to bottom on the plain containers;
+   a line "target = expr" of an ExprTask evaluates and stores; other tasks do not print as statements *)
+Fixpoint run_lines (ls : list fline) (values : list node) : DM unit :=
+  match ls with
+  | [] => dret tt
+  | LAssign p i :: r =>
+      match nth_error values i with
+      | Some v => dseq (d_set_value_ref p v) (run_lines r values)
+      | None => fun σ => (σ, Err EType)
+      end
+  | LTask t :: r =>
+      match t_act t with
+      | AExpr e => dbind (d_get_value e) (fun v =>
+                   dseq (d_set_value_ref (t_id t) v)
+                  (dseq (fun σ => let '(m, s, tr) := σ in ((m, s, tr ++ [t_id t]), Ok tt)) (run_lines r values)))
+      | _ => fun σ => (σ, Err EType)
+      end
+  end.
+
 (* ---- LinearKnob.run ------------------------------------------------------------------------- *)
 (* self.source._get_value()  (a number) *)
 Definition d_get_number (p : path) : DM Z :=
